@@ -3,7 +3,8 @@
 patch applies, 462 tests pass with it, demo fails with it and passes without it.  Writes
 seeded/<id>/ {patch.diff, demo.py, notes.md, meta.json}."""
 import json, os, shutil, subprocess, sys, re
-INC = "/verif/seeded/_incoming"
+INC = sys.argv[1] if len(sys.argv) > 1 else "/verif/seeded/_incoming"
+ONLY = sys.argv[2:]
 def sh(*a, **k): return subprocess.run(a, capture_output=True, text=True, **k)
 props = {json.loads(l)["id"]: json.loads(l) for l in open("/verif/properties.jsonl")}
 wt = "/tmp/sw_verify"
@@ -12,10 +13,13 @@ r = sh("git", "-C", "/repo", "worktree", "add", "--detach", wt, "HEAD"); assert 
 results = {}
 try:
     for pid in sorted(os.listdir(INC)):
-        for mk in ("m1", "m2"):
+        if not os.path.isdir(os.path.join(INC, pid)) or pid not in props: continue
+        for mk in sorted(os.listdir(os.path.join(INC, pid))):
             src = os.path.join(INC, pid, mk)
-            if not os.path.exists(os.path.join(src, "patch.diff")): continue
+            if not os.path.exists(os.path.join(src, "patch.diff")) or not os.path.exists(os.path.join(src, "demo.py")): continue
             sid = "%s-%s" % (pid, mk)
+            if ONLY and not any(sid.startswith(o) for o in ONLY): continue
+            if os.path.exists(os.path.join("/verif/seeded", sid, "meta.json")): continue   # already confirmed
             sh("git", "-C", wt, "checkout", "--", ".")
             ap = sh("git", "-C", wt, "apply", os.path.join(src, "patch.diff"))
             ok_apply = ap.returncode == 0
